@@ -16,7 +16,7 @@ Definition opt_eqb {A} (eqb : A -> A -> bool) (a b : option A) : bool :=
   | _, _ => false
   end.
 
-Fixpoint list_eqb {A} (eqb : A -> A -> bool) (a b : list A) : bool :=
+Fixpoint list_eqb {A B} (eqb : A -> B -> bool) (a : list A) (b : list B) : bool :=
   match a, b with
   | [], [] => true
   | x :: a', y :: b' => eqb x y && list_eqb eqb a' b'
